@@ -643,6 +643,10 @@ def run_profile(profile, seed, tier, opts=None, flavor="dev-hooks", modes=7, sca
             os.remove(bins[name])
             return [], False, 0
         cr, to = build.run_batch_bin(bins[name], cases_path, logp, n)
+        tr = build.rendering_trailer(logp)
+        if tr is not None and tr != "same":
+            with open(os.path.join(rundir, name + ".render.json"), "w") as f:
+                json.dump({"before": tr[0], "after": tr[1]}, f)
         obs = build.parse_log(logp)
         # split per unit
         per = {}
@@ -688,6 +692,12 @@ def run_profile(profile, seed, tier, opts=None, flavor="dev-hooks", modes=7, sca
     per_unit.sort(key=lambda r: r["uid"])
     tC = time.time()
     summary = summarise(profile, seed, tier, opts, units, per_unit, pgen_fail, compile_fail, gen_errors, crashes, timeouts)
+    import glob as _glob
+    rj = sorted(_glob.glob(os.path.join(rundir, "*.render.json")))
+    summary["render_state_changed"] = None
+    if rj:
+        with open(rj[0]) as f:
+            summary["render_state_changed"] = json.load(f)
     bad_uids = {c.get("uid") for c in compile_fail}
     summary["unit_meta"] = [{"uid": u["uid"], "variant": u["variant"], "shape": u.get("shape"), "ntriv": u.get("ntriv"),
                              "compiled": (u["uid"] in set(good_uids)), "runnable": u.get("runnable", True)}
